@@ -236,3 +236,165 @@ class InternalCount(ReduceKernel):
 
 
 KERNELS = [InternalCount, ResolveLeafLevel, RootAggregate] + [make_resolve(e) for e in range(1, 64)]
+
+
+# ------------------------------------------------------------------ value-tick and removal paths (which combiners re-run)
+
+I_ = z3.IntSort()
+B_ = z3.BoolSort()
+qd, qp = z3.Ints("qd qp")
+
+
+class Bitmap(Obj):
+    """SlotBitmap as a set of positions (Array Int Bool); set(p) needs p < size (slot_bitmap.h asserts it)"""
+    cls = "SlotBitmap"
+
+    def __init__(self, k):
+        Obj.__init__(self, name="positions")
+        self.k = k
+
+    def m_set(self, I, args, n):
+        ctx = I.ctx
+        p = ctx.rv(args[0])
+        ctx.oblige("callee-pre.SlotBitmap::set:position-in-range", z3.And(p >= 0, p < self.k.ncomb), kind="callee-pre")
+        ctx.write(Loc((self.oid, "bits")), z3.Store(ctx.store[(self.oid, "bits")], p, True))
+        return VOID
+
+
+class CombinerVec(Obj):
+    """std::vector<CombinerEntry*>: only null-ness matters here"""
+    cls = "std::vector<CombinerEntry*>"
+
+    def __init__(self, k):
+        Obj.__init__(self, name="combiners")
+        self.k = k
+
+    def m_size(self, I, args, n):
+        return self.k.ncomb
+
+    def op(self, I, op, rest, n, a0):
+        if op == "[]":
+            i = I.ctx.rv(rest[0])
+            I.ctx.oblige("vector-index-in-range@%s" % extract.line_of(n), z3.And(i >= 0, i < self.k.ncomb), kind="bounds")
+            return Ptr(Obj("CombinerEntry", "combiner"), z3.Not(self.k.live_comb[i]))
+        return NotImplemented
+
+
+class AppendLeafPath(ReduceKernel):
+    name = "reduce_node.cpp:append_leaf_path"
+    fn_name = "append_leaf_path"
+    filter = "append_leaf_path"
+    title = "append_leaf_path: every live combiner on the path from a ticked leaf to the root is marked for evaluation"
+    inline = ()
+
+    def f_internal_count(self, I, args, n):
+        """callee contract, proved by the InternalCount kernel"""
+        return z3.If(self.cap > 1, self.cap - 1, z3.IntVal(0))
+
+    def setup(self, I):
+        ctx = I.ctx
+        self.base(I)
+        self.leaf = z3.Int("leaf")
+        ctx.assume(z3.And(self.leaf >= 0, self.leaf < self.live, self.cap >= 1))
+        self.live_comb = z3.Array("combiner_present", I_, B_)
+        ctx.store[(self.st.oid, "combiners")] = CombinerVec(self)
+        self.bm = Bitmap(self)
+        self.bits0 = z3.Array("positions0", I_, B_)
+        ctx.store[(self.bm.oid, "bits")] = self.bits0
+        # the implicit heap: depth(p), and anc(d) = the ancestor of the start position at depth d
+        self.depth = z3.Array("depth", I_, I_)
+        self.anc = z3.Array("anc", I_, I_)
+        self.start = z3.If(self.cap > 1, self.cap - 1, 0) + self.leaf
+        dp, an = self.depth, self.anc
+        ctx.assume(dp[0] == 0)
+        ctx.assume(z3.ForAll([qp], z3.Implies(qp > 0, z3.And(dp[qp] == dp[(qp - 1) / 2] + 1, dp[qp] >= 1))))
+        ctx.assume(an[dp[self.start]] == self.start)
+        ctx.assume(z3.ForAll([qd], z3.Implies(z3.And(qd >= 0, qd < dp[self.start]), z3.And(
+            an[qd] == (an[qd + 1] - 1) / 2, an[qd + 1] > 0, dp[an[qd]] == qd))))
+        ctx.assume(dp[self.start] >= 0)
+        return None, {"storage": self.st, "leaf": self.leaf, "positions": self.bm}
+
+    def marked_from(self, ctx, lo):
+        bits = ctx.store[(self.bm.oid, "bits")]
+        an, dp = self.anc, self.depth
+        return z3.ForAll([qd], z3.Implies(z3.And(qd >= lo, qd < dp[self.start], an[qd] < self.ncomb, self.live_comb[an[qd]]),
+                                          bits[an[qd]]))
+
+    def inv(self, I, ctx):
+        p = self.local(I, "position")
+        bits = ctx.store[(self.bm.oid, "bits")]
+        yield "position-on-the-leaf's-path", z3.And(p >= 0, self.anc[self.depth[p]] == p, self.depth[p] <= self.depth[self.start],
+                                                   self.depth[p] >= 0)
+        yield "live-combiners-between-the-leaf-and-the-cursor-marked[C11]", self.marked_from(ctx, self.depth[p])
+        yield "only-marks-added", z3.ForAll([qp], z3.Implies(self.bits0[qp], bits[qp]))
+        yield "only-live-combiners-marked", z3.ForAll([qp], z3.Implies(z3.And(bits[qp], z3.Not(self.bits0[qp])),
+                                                                       z3.And(qp >= 0, qp < self.ncomb, self.live_comb[qp])))
+
+    def frame(self, I, ctx):
+        return [Loc((self.bm.oid, "bits"))]
+
+    @property
+    def loops(self):
+        return {0: LoopSpec(self.inv, self.frame)}
+
+    def post(self, I, ret):
+        ctx = I.ctx
+        bits = ctx.store[(self.bm.oid, "bits")]
+        ctx.oblige("ensures.every-live-combiner-above-the-ticked-leaf-is-marked-up-to-the-root[C11 the fold reflects a tick of "
+                   "any valid element]", self.marked_from(ctx, z3.IntVal(0)), kind="post-normal")
+        ctx.oblige("ensures.marks-only-added,only-live-combiners", z3.ForAll([qp], z3.And(
+            z3.Implies(self.bits0[qp], bits[qp]),
+            z3.Implies(z3.And(bits[qp], z3.Not(self.bits0[qp])), z3.And(qp >= 0, qp < self.ncomb, self.live_comb[qp])))),
+            kind="post-normal")
+
+
+class PushVec(Obj):
+    """std::vector<size_t> used as an append-only list: len, data"""
+    cls = "std::vector<size_t>"
+
+    def __init__(self, ctx, name):
+        Obj.__init__(self, name=name)
+        self.len0 = z3.Int(name + "_len0")
+        ctx.assume(self.len0 >= 0)
+        ctx.store[(self.oid, "len")] = self.len0
+        ctx.store[(self.oid, "data")] = z3.Array(name + "_data0", I_, I_)
+        self.data0 = ctx.store[(self.oid, "data")]
+
+    def m_push_back(self, I, args, n):
+        ctx = I.ctx
+        L = ctx.store[(self.oid, "len")]
+        ctx.write(Loc((self.oid, "data")), z3.Store(ctx.store[(self.oid, "data")], L, ctx.rv(args[0])))
+        ctx.write(Loc((self.oid, "len")), L + 1)
+        return VOID
+
+
+class RecordRemovedLeafPaths(ReduceKernel):
+    name = "reduce_node.cpp:record_removed_leaf_paths"
+    fn_name = "record_removed_leaf_paths"
+    filter = "record_removed_leaf_paths"
+    title = "record_removed_leaf_paths: a swap-removal re-binds the vacated position and the position the tail leaf came from"
+
+    def setup(self, I):
+        ctx = I.ctx
+        self.base(I)
+        self.leaf = z3.Int("leaf")
+        ctx.assume(z3.And(self.leaf >= 0, self.leaf < self.live))
+        self.sl = PushVec(ctx, "structural_leaves")
+        ctx.store[(self.st.oid, "structural_leaves")] = self.sl
+        return None, {"storage": self.st, "leaf": self.leaf}
+
+    def post(self, I, ret):
+        ctx = I.ctx
+        L, D = ctx.store[(self.sl.oid, "len")], ctx.store[(self.sl.oid, "data")]
+        last = self.live - 1
+        has = lambda v: z3.Exists([qp], z3.And(qp >= self.sl.len0, qp < L, D[qp] == v))
+        ctx.oblige("ensures.both-paths-recorded:the-vacated-leaf-and-the-moved-tail-leaf[C11 the fold is over exactly the "
+                   "currently valid elements after a removal]", z3.And(has(self.leaf), has(last)), kind="post-normal")
+        ctx.oblige("ensures.append-only,nothing-else-recorded", z3.And(
+            L >= self.sl.len0, L <= self.sl.len0 + 2,
+            z3.ForAll([qp], z3.Implies(z3.And(qp >= 0, qp < self.sl.len0), D[qp] == self.sl.data0[qp])),
+            z3.ForAll([qp], z3.Implies(z3.And(qp >= self.sl.len0, qp < L), z3.Or(D[qp] == self.leaf, D[qp] == last)))),
+            kind="post-normal")
+
+
+KERNELS += [AppendLeafPath, RecordRemovedLeafPaths]
